@@ -35,29 +35,50 @@ namespace Carquet.Properties.C01
 open Carquet.Impl Carquet.Impl.Reader
 open Carquet.Proofs.ReaderPageRoundtrip Carquet.Proofs.ReaderChunkRoundtrip Carquet.Proofs.ReaderModes
 
-/-- **Page body round trip.**  For a flat REQUIRED or OPTIONAL column of any of the eight physical
-types and a page as the page builder holds it when it is finalised (`PageShape`: one definition level
-≤ 1 per row for OPTIONAL, none for REQUIRED; as many values as non-null rows; values of the
-column's width, booleans 0/1; sizes that fit the C types), decoding the body the writer emits —
-`carquet_read_data_page_v1` with PLAIN encoding and the page's row count — returns exactly the
-definition levels, all-zero repetition levels and the dense values that went in. -/
+/-- **Page body round trip.**  For a flat REQUIRED, OPTIONAL or REPEATED column of any of the eight
+physical types and a page as the page builder holds it when it is finalised (`PageShape`: one
+definition level ≤ 1 per entry for OPTIONAL / REPEATED, none for REQUIRED; one repetition level ≤ 1
+per entry for REPEATED, none otherwise; as many values as entries with definition level 1; values
+of the column's width, booleans 0/1; sizes that fit the C types), decoding the body the writer emits —
+`carquet_read_data_page_v1` with PLAIN encoding and the page's entry count — returns exactly the
+definition levels, the repetition levels (all zero for a column that is not REPEATED) and the dense
+values that went in. -/
 theorem C01_page_body_roundtrip (c : Writer.Col) (p : Writer.Page) (h : PageShape c p) (cm : ThriftParquet.ColumnMetaData)
     (dict : Option Dict) :
     readDataPageV1 Fixes.all (colOf c cm) dict (Writer.pageBody (FileReal.deps []) c p) p.numValues 0 =
-      .ok ⟨if c.maxDef > 0 then p.defs else List.replicate p.numValues 0, List.replicate p.numValues 0, p.values⟩ :=
+      .ok ⟨if c.maxDef > 0 then p.defs else List.replicate p.numValues 0,
+           if c.maxRep > 0 then p.reps else List.replicate p.numValues 0, p.values⟩ :=
   readDataPageV1_pageBody c p h cm dict
 
 -- non-vacuity: an OPTIONAL INT32 page with rows 5, null, 6
 example : PageShape ⟨"a", .int32, .optional, 0⟩
     { values := [[5, 0, 0, 0], [6, 0, 0, 0]], defs := [1, 0, 1], numValues := 3, numNulls := 1 } := by
   constructor
-  · decide
-  · rfl
   · intro _; decide
   · intro h; exact absurd h (by decide)
   · decide
   · decide
   · intro v hv; simp at hv; rcases hv with h | h <;> subst h <;> rfl
+  · decide
+  · decide
+  · intro h; exact absurd h (by decide)
+  · intro _; rfl
+  · intro r hr; cases hr
+  · decide
+
+-- non-vacuity for REPEATED: a page holding the lists [5, 6] and [] (three entries)
+example : PageShape ⟨"l", .int32, .repeated, 0⟩
+    { values := [[5, 0, 0, 0], [6, 0, 0, 0]], defs := [1, 1, 0], reps := [0, 1, 0], numValues := 3, numNulls := 1 } := by
+  constructor
+  · intro _; decide
+  · intro h; exact absurd h (by decide)
+  · decide
+  · decide
+  · intro v hv; simp at hv; rcases hv with h | h <;> subst h <;> rfl
+  · decide
+  · decide
+  · intro _; decide
+  · intro h; exact absurd h (by decide)
   · decide
   · decide
 
@@ -175,14 +196,16 @@ def exR2 := Writer.pageRecOf D 1 exCol exP2
 
 private theorem shape1 : PageShape exCol exP1 := by
   constructor
-  · decide
-  · rfl
   · intro _; decide
   · intro h; exact absurd h (by decide)
   · decide
   · decide
   · intro v hv; simp [exP1] at hv; rcases hv with h | h <;> subst h <;> rfl
   · decide
+  · decide
+  · intro h; exact absurd h (by decide)
+  · intro _; rfl
+  · intro r hr; cases hr
   · decide
 
 private theorem rec1 : RecOk exCol 1 exR1 := by
@@ -194,14 +217,16 @@ private theorem rec1 : RecOk exCol 1 exR1 := by
 
 private theorem shape2 : PageShape exCol exP2 := by
   constructor
-  · decide
-  · rfl
   · intro _; decide
   · intro h; exact absurd h (by decide)
   · decide
   · decide
   · intro v hv; simp [exP2] at hv; subst hv; rfl
   · decide
+  · decide
+  · intro h; exact absurd h (by decide)
+  · intro _; rfl
+  · intro r hr; cases hr
   · decide
 
 private theorem rec2 : RecOk exCol 1 exR2 := by
